@@ -1,7 +1,7 @@
 -------------------------------- MODULE FileIO --------------------------------
 (* The machine of FileOps explored by TLC: every fault class x every strike offset; FileAllOrError as an invariant;
    every complete behaviour exported for replay against the real to_file (GEN). *)
-EXTENDS FileOps, TLC, Json
+EXTENDS FileRun, TLC, Json
 VARIABLES fs, fault, off, hist
 vars == <<fs, fault, off, hist>>
 Init == /\ fs = F_Init /\ hist = <<>>
